@@ -9,6 +9,7 @@ import (
 	"encoding/binary"
 	"encoding/json"
 	"fmt"
+	"github.com/bits-and-blooms/bloom/v3"
 	"github.com/klauspost/compress/snappy"
 	"github.com/klauspost/compress/zstd"
 	"hash/crc32"
@@ -56,6 +57,7 @@ type History struct {
 	Ops            []string
 	nextID         int
 	Ext            map[int]bool // rows written by the external writer
+	ExtFileFilters func() int   // when set: presence mask (1 field, 2 token, 4 field::token; 0 none) of the file-level filters the next external file carries
 }
 
 // allExternal reports whether every row id belongs to an externally written file.
@@ -358,6 +360,42 @@ func (h *History) writeExternal(parts map[string][]*StoredRow, withHash func() b
 	}
 	meta.BlockFilterRegionOffset = buf.Len()
 	meta.BlockFilterRegionSize = 0
+	if h.ExtFileFilters != nil {
+		// an external writer may hand WriteFileFooter any subset of the three file-level filters (the format's
+		// presence flags; an absent filter rules nothing out): built here from the rows' own entries
+		if mask := h.ExtFileFilters(); mask != 0 {
+			fields, tokens, fts := map[string]bool{}, map[string]bool{}, map[string]bool{}
+			for _, sr := range all {
+				f, t, ft := bs.VerifIndexRow(sr.Bytes, h.Env.Cfg.Tokenizer)
+				for _, x := range f {
+					fields[x] = true
+				}
+				for _, x := range t {
+					tokens[x] = true
+				}
+				for _, x := range ft {
+					fts[x] = true
+				}
+			}
+			mk := func(set map[string]bool) *bloom.BloomFilter {
+				fl := bloom.NewWithEstimates(uint(max(len(set), 1)), 0.01)
+				for x := range set {
+					fl.AddString(x)
+				}
+				return fl
+			}
+			if mask&1 != 0 {
+				meta.BloomFilters.FieldBloomFilter = mk(fields)
+			}
+			if mask&2 != 0 {
+				meta.BloomFilters.TokenBloomFilter = mk(tokens)
+			}
+			if mask&4 != 0 {
+				meta.BloomFilters.FieldTokenBloomFilter = mk(fts)
+			}
+			h.Ops = append(h.Ops, fmt.Sprintf("(next external file carries file-level filters, presence mask %03b)", mask))
+		}
+	}
 	if err := bs.WriteFileFooter(&buf, &meta); err != nil {
 		rep.Add(Finding{Kind: "disagreement", Check: "external-writer", Detail: err.Error(), Replay: h.Ops})
 		return
